@@ -4,6 +4,7 @@
 From Coq Require Import List ZArith NArith Lia Bool Arith.
 From Astisub Require Import Kit.Base Kit.Str Kit.Html Kit.Scan Model.Dur Model.Srt.
 From Astisub Require Import Proofs.DurProofs Proofs.ScanProofs Proofs.SrtEscProofs Proofs.SrtProofs.
+From Astisub Require Import Proofs.SrtSimple.
 Import ListNotations.
 Open Scope N_scope.
 
@@ -382,14 +383,16 @@ Proof.
   rewrite P, A, pend_add, sa_add, <- app_assoc. repeat split. intros fl. rewrite C, close_add. reflexivity.
 Qed.
 
-(* an index line: one text token *)
+(* an index line: one text token (no NUL byte: inside the faithful domain of the tokenizer model, [index_ok_simple]) *)
 Definition index_ok (x : str) : Prop :=
-  ends_plain x /\ utf8_valid x = true /\ contains arrow x = false /\ ~ In 60 x.
+  ends_plain x /\ utf8_valid x = true /\ contains arrow x = false /\ ~ In 60 x /\ ~ In 0 x.
+Lemma index_ok_simple x : index_ok x -> html_simple x = true.
+Proof. intros (_ & _ & _ & H60 & H0). apply text_line_simple; assumption. Qed.
 Definition index_run (x : str) (a : sa) : srun := mkSrun (unescape_html x) (if sa_styled a then Some a else None) 0.
 
 Lemma parse_text_plainline x a : index_ok x -> parse_text_srt x a = ([index_run x a], a).
 Proof.
-  intros (He & _ & _ & Hlt). pose proof (trim_space_ends x He) as Ht. destruct He as (Hne & _).
+  intros (He & _ & _ & Hlt & _). pose proof (trim_space_ends x He) as Ht. destruct He as (Hne & _).
   unfold parse_text_srt. rewrite Ht. destruct x as [|c r]; [contradiction|]. cbv iota. set (x := c :: r) in *.
   rewrite tokenize_tokc. rewrite <- (app_nil_r x) at 1.
   rewrite tokc_app_text by exact Hlt. rewrite tokc_nil, flush_rev_text by exact Hne.
@@ -470,7 +473,11 @@ Fixpoint thread (xs : list str) (a : sa) : list (list srun) * sa :=
               let '(ls, a'') := thread r a' in
               (match rs with [] => ls | _ => rs :: ls end, a'')
   end.
-Definition body_line_ok (x : str) : Prop := trim_space x = x /\ utf8_valid x = true /\ contains arrow x = false.
+(* a raw body line is an arbitrary string: the last conjunct keeps it inside the faithful domain of the markup tokenizer
+   model (no raw-text element such as script/style/title, no comment, no '&' or CR in an attribute value, no NUL byte);
+   outside it the statement below would hold of the model only (witness: Proofs/SrtSimpleRaw.v) *)
+Definition body_line_ok (x : str) : Prop :=
+  trim_space x = x /\ utf8_valid x = true /\ contains arrow x = false /\ html_simple x = true.
 Definition rcue_ok (q : rcue) : Prop :=
   (0 <= rc_st q <= max_int64)%Z /\ (0 <= rc_en q <= max_int64)%Z /\
   Forall body_line_ok (rc_body q) /\ Forall line_keeps (fst (thread (rc_body q) sa0)).
@@ -540,7 +547,7 @@ Lemma run_body : forall xs D i st en acc a R, Forall body_line_ok xs ->
 Proof.
   induction xs as [|x xs IH]; intros D i st en acc a R H.
   - cbn [app thread fst snd]. rewrite app_nil_r. reflexivity.
-  - inversion H as [|? ? (Ht & Hu & Hc) Hxs]; subst. cbn [app thread].
+  - inversion H as [|? ? (Ht & Hu & Hc & _) Hxs]; subst. cbn [app thread].
     destruct (parse_text_srt x a) as [rs a'] eqn:Hp. destruct (thread xs a') as [ls a''] eqn:Hth.
     rewrite (srt_run_cons _ _ _ _ _ (step_text (mkR D (Some (mkSitem i st en acc)) a []) x rs a' Ht Hu Hc Hp)).
     destruct rs as [|r0 rs'].
@@ -655,7 +662,8 @@ Lemma rcue_of_ok it : repr_item it -> rcue_ok (rcue_of it).
 Proof.
   intros ((Hst & Hen) & Hls). unfold rcue_ok, rcue_of. cbn [rc_st rc_en rc_body]. split; [exact Hst|]. split; [exact Hen|]. split.
   - apply Forall_forall. intros x Hx. apply in_map_iff in Hx. destruct Hx as (l & <- & Hl).
-    rewrite Forall_forall in Hls. destruct (Hls l Hl) as (_ & Ht & Hc & _ & Hu). repeat split; assumption.
+    rewrite Forall_forall in Hls. pose proof (repr_doc_line_simple l (Hls l Hl)) as Hsim.
+    destruct (Hls l Hl) as (_ & Ht & Hc & _ & Hu). repeat split; assumption.
   - rewrite (thread_written _ Hls). cbn [fst]. apply repr_item_keeps. split; [split; assumption | exact Hls].
 Qed.
 
@@ -688,7 +696,7 @@ Proof.
   intros Hd Hne. split; [apply digits_ends_plain; assumption|].
   split; [apply utf8_valid_ascii, all_plain_ascii, digits_all_plain; exact Hd|].
   split; [unfold arrow; apply contains_none; apply digits_not_in; [exact Hd | reflexivity]|].
-  apply digits_not_in; [exact Hd | reflexivity].
+  split; apply digits_not_in; try exact Hd; reflexivity.
 Qed.
 Lemma index_value_number n : (Z.of_N n <= max_int64)%Z -> index_ok (itoa n) /\ index_value (Some (itoa n)) = Z.of_N n.
 Proof.
@@ -714,7 +722,7 @@ Definition wsb (s : str) : bool := forallb is_ascii_space s.
 Definition all_asciib (s : str) : bool := forallb (fun c => c <? 128) s.
 Definition ends_plainb (s : str) : bool := negb (is_nil s) && plain_byte (hd 0 s) && plain_byte (last s 0).
 Definition index_okb (x : str) : bool :=
-  ends_plainb x && utf8_valid x && negb (contains arrow x) && negb (existsb (N.eqb 60) x).
+  ends_plainb x && utf8_valid x && negb (contains arrow x) && negb (existsb (N.eqb 60) x) && negb (existsb (N.eqb 0) x).
 Definition tail_okb (tl : str) : bool :=
   all_asciib tl && negb (contains arrow tl) && (is_nil tl || (is_ascii_space (hd 0 tl) && plain_byte (last tl 0))).
 Definition rend_okb (c : rend) : bool :=
@@ -723,7 +731,7 @@ Definition rend_okb (c : rend) : bool :=
   wsb (rd_sp_left c) && wsb (rd_sp_right c) && tail_okb (rd_tail c).
 Definition gap_okb (c : rend) : bool := match rd_index c with None => Nat.leb 1 (rd_blank_before c) | Some _ => true end.
 Definition line_keepsb (l : list srun) : bool := match rev l with r :: _ => negb (is_nil (sr_text r)) | [] => false end.
-Definition body_line_okb (x : str) : bool := str_eqb (trim_space x) x && utf8_valid x && negb (contains arrow x).
+Definition body_line_okb (x : str) : bool := str_eqb (trim_space x) x && utf8_valid x && negb (contains arrow x) && html_simple x.
 Definition rcue_okb (q : rcue) : bool :=
   (0 <=? rc_st q)%Z && (rc_st q <=? max_int64)%Z && (0 <=? rc_en q)%Z && (rc_en q <=? max_int64)%Z &&
   forallb body_line_okb (rc_body q) && forallb line_keepsb (fst (thread (rc_body q) sa0)).
@@ -747,9 +755,11 @@ Proof.
 Qed.
 Lemma index_okb_ok x : index_okb x = true -> index_ok x.
 Proof.
-  unfold index_okb, index_ok. intros H. apply andb_true_iff in H. destruct H as [H H4]. apply andb_true_iff in H. destruct H as [H H3].
-  apply andb_true_iff in H. destruct H as [H1 H2]. apply negb_true_iff in H3, H4.
-  split; [apply ends_plainb_ok; exact H1|]. split; [exact H2|]. split; [exact H3 | apply not_existsb_not_in; exact H4].
+  unfold index_okb, index_ok. intros H. apply andb_true_iff in H. destruct H as [H H5].
+  apply andb_true_iff in H. destruct H as [H H4]. apply andb_true_iff in H. destruct H as [H H3].
+  apply andb_true_iff in H. destruct H as [H1 H2]. apply negb_true_iff in H3, H4, H5.
+  split; [apply ends_plainb_ok; exact H1|]. split; [exact H2|]. split; [exact H3|].
+  split; apply not_existsb_not_in; assumption.
 Qed.
 Lemma tail_okb_ok tl : tail_okb tl = true -> tail_ok tl.
 Proof.
@@ -778,8 +788,9 @@ Proof.
 Qed.
 Lemma body_line_okb_ok x : body_line_okb x = true -> body_line_ok x.
 Proof.
-  unfold body_line_okb, body_line_ok. intros H. apply andb_true_iff in H. destruct H as [H H3]. apply andb_true_iff in H. destruct H as [H1 H2].
-  split; [apply str_eqb_eq; exact H1|]. split; [exact H2 | apply negb_true_iff; exact H3].
+  unfold body_line_okb, body_line_ok. intros H. apply andb_true_iff in H. destruct H as [H H4].
+  apply andb_true_iff in H. destruct H as [H H3]. apply andb_true_iff in H. destruct H as [H1 H2].
+  split; [apply str_eqb_eq; exact H1|]. split; [exact H2|]. split; [apply negb_true_iff; exact H3 | exact H4].
 Qed.
 Lemma rcue_okb_ok q : rcue_okb q = true -> rcue_ok q.
 Proof.
